@@ -21,6 +21,9 @@ inductive Behaviour where
   | error (msg : Nat)                             -- returns a plain error
   | errorReason (msg reason : Nat)                -- returns an error carrying a result reason
   | panic (msg : Nat)                             -- panics with a value rendering as `msg`
+  /-- returns a first result TOGETHER with an error (`reason = none`: a plain error); `encodable` says whether Encode would
+      accept that first result - it must not matter -/
+  | errorWith (msg : Nat) (reason : Option Nat) (encodable : Bool)
   deriving DecidableEq, Repr, Inhabited
 
 structure ReqItem where
@@ -109,6 +112,7 @@ def itemResult (registered : List Nat) (it : ReqItem) : ItemRes :=
     | .error m => { op := it.op, uid := it.uid, status := statusFailed, reason := generalFailure, msg := some m, payload := none }
     | .errorReason m r => { op := it.op, uid := it.uid, status := statusFailed, reason := r, msg := some m, payload := none }
     | .panic m => { op := it.op, uid := it.uid, status := statusFailed, reason := generalFailure, msg := some (panicMsg m), payload := none }
+    | .errorWith m r _ => { op := it.op, uid := it.uid, status := statusFailed, reason := r.getD generalFailure, msg := some m, payload := none }
   else
     { op := it.op, uid := it.uid, status := statusFailed, reason := operationNotSupported, msg := some msgNotSupported, payload := none }
 
